@@ -683,6 +683,45 @@ class Analysis:
                                 keep.add(Fact(">", f.l, f.r))
                             if w[0] == "dec" and f.op in ("<=", "<", "=="):
                                 keep.add(Fact("<", f.l, f.r))
+            # x = MIN(x, E) only lowers x: upper bounds of x survive the assignment
+            for g in gens:
+                if g[0] != "assign":
+                    continue
+                lhs, rhs = g[1], sk(g[2])
+                lp = apath(lhs)
+                if lp is None or not is_pure(rhs):
+                    continue
+                lk = pp(lhs)
+                if rhs.get("k") != "Cond":
+                    # `if (x > E) x = E;` lowers x as well
+                    if rhs.get("k") in ("Call", "InitList", "Str") or lp[0][2] in _rvars(rhs):
+                        continue
+                    rk_ = cval(rhs) if cval(rhs) is not None else pp(rhs)
+                    if not d_holds(d, ">=", lk, rk_):
+                        continue
+                else:
+                    arms = _min_arms(rhs)
+                    if not arms or lk not in (pp(arms[0]), pp(arms[1])):
+                        continue
+                    other = arms[1] if pp(arms[0]) == lk else arms[0]
+                    if lp[0][2] in _rvars(other):
+                        continue
+                for f in d:
+                    if f.kind != "cmp" or f.key[0] != lk:
+                        continue
+                    if lp[0][2] in _rvars(f.r):
+                        continue
+                    if f.op in ("<=", "<"):
+                        keep.add(f)
+                    elif f.op == "==":
+                        r = sk(f.r)
+                        ar2 = _min_arms(r) if r.get("k") == "Cond" else []
+                        if ar2:
+                            for arm in ar2:
+                                if lp[0][2] not in _rvars(arm):
+                                    keep.add(Fact("<=", lhs, arm))
+                        elif r.get("k") != "Call":
+                            keep.add(Fact("<=", lhs, f.r))
             writes = [("path", w[1], w[2]) if w[0] in ("inc", "dec") else w for w in writes]
             d = frozenset(f for f in d if not any(kills(w, f) for w in writes)) | keep
         if not gens:
